@@ -11,6 +11,7 @@
 #include "xcm_addr.h"
 
 #include <ares.h>
+#include <limits.h>
 #include <netinet/in.h>
 #include <poll.h>
 #include <stdbool.h>
@@ -209,7 +210,8 @@ struct xcm_dns_query *xcm_dns_resolve(const char *domain_name,
     opts_mask |= ARES_OPT_TIMEOUTMS;
 
     /* make sure cares actually make use of the total time allocated */
-    opts.tries = (timeout / PER_QUERY_TIMEOUT) + 1;
+    double tries = (timeout / PER_QUERY_TIMEOUT) + 1;
+    opts.tries = tries < INT_MAX ? tries : INT_MAX;
     opts_mask |= ARES_OPT_TRIES;
 
     int rc = ares_init_options(&query->channel, &opts, opts_mask);
